@@ -128,6 +128,49 @@ def _worker(args):
     return out
 
 
+def run_fuzz(pid, seed, cfg):
+    """Coverage-guided campaigns (Atheris / libFuzzer) over the same property; returns (worker-like results, info)."""
+    import shutil  # noqa: PLC0415
+    import subprocess  # noqa: PLC0415
+    import tempfile  # noqa: PLC0415
+
+    deps = os.path.join(VERIF, ".deps")
+    env = dict(os.environ, PYTHONPATH=deps + os.pathsep + os.environ.get("PYTHONPATH", ""), PYTHONHASHSEED="0")
+    probe = subprocess.run([sys.executable, "-c", "import atheris"], env=env, capture_output=True)
+    if probe.returncode != 0:
+        return [], {"available": False, "note": "atheris is not importable (tools/setup.sh installs it into /verif/.deps); Hypothesis only"}
+    work = tempfile.mkdtemp(prefix=f"vp_fuzz_{pid}_", dir=os.path.join(VERIF, ".deps"))
+    procs = []
+    try:
+        for i in range(cfg.get("jobs", 8)):
+            d = os.path.join(work, str(i))
+            os.makedirs(os.path.join(d, "corpus"))
+            out = os.path.join(d, "out.json")
+            cmd = [sys.executable, "-m", "vp_hg.fuzz.atheris_run", pid, out, f"-runs={cfg.get('runs', 50000)}", f"-seed={seed * 100 + i + 1}",
+                   f"-max_len={cfg.get('max_len', 4096)}", "-timeout=120", os.path.join(d, "corpus")]
+            procs.append((i, out, subprocess.Popen(cmd, cwd=VERIF, env=env, stdout=subprocess.DEVNULL, stderr=subprocess.DEVNULL)))
+        results, evals, execs = [], 0, 0
+        for i, out, pr in procs:
+            try:
+                pr.wait(timeout=cfg.get("timeout_s", 900))
+            except subprocess.TimeoutExpired:
+                pr.kill()  # a wall-clock budget hit is "inconclusive", never a violation
+            if not os.path.exists(out):
+                continue
+            with open(out) as f:
+                d = json.load(f)
+            evals += d["evaluations"]
+            r = {k: d.get(k) for k in ("evaluations", "shrink_evaluations", "nontrivial", "labels", "samples", "known", "excluded")}
+            r.update(status="ok", error=None, worker=100 + i, seed=seed * 100 + i + 1, first_failure=None, last_failure=None)
+            if d.get("violation"):
+                r.update(status="violation", first_failure=d["violation"], last_failure=d["violation"])
+            results.append(r)
+        return results, {"available": True, "jobs": len(procs), "runs_per_job": cfg.get("runs", 50000), "cases_decoded_and_checked": evals,
+                         "note": "libFuzzer bytes are decoded by Hypothesis' fuzz_one_input into the same cases as the check's strategy; coverage feedback from histogrammar/* only; empty starting corpus"}
+    finally:
+        shutil.rmtree(work, ignore_errors=True)
+
+
 def write_replay(pid, rec, seed, tier, sub="new"):
     d = os.path.join(VERIF, "replays", sub) if sub else os.path.join(VERIF, "replays")
     os.makedirs(d, exist_ok=True)
@@ -252,6 +295,11 @@ def main(argv=None):  # noqa: PLR0912, PLR0915
         with ctx.Pool(workers) as pool:
             results = pool.map(_worker, jobs, chunksize=1)
 
+    fuzz_info = None
+    if a.tier == "thorough" and getattr(mod, "FUZZ", None) and not any(r["status"] == "violation" for r in results):
+        fuzz_results, fuzz_info = run_fuzz(pid, seed, mod.FUZZ)
+        results += fuzz_results
+
     errors = [r for r in results if r["status"] == "error"]
     evaluations = sum(r["evaluations"] for r in results)
     shrink_evals = sum(r["shrink_evaluations"] for r in results)
@@ -299,6 +347,8 @@ def main(argv=None):  # noqa: PLR0912, PLR0915
         "excluded_by_construction": excluded,
         "known_finding_hits": known_hits,
     }
+    if fuzz_info is not None:
+        coverage["atheris"] = fuzz_info
     if not a.no_evidence:
         if not samples:
             coverage["samples"] = [{"note": "no non-trivial case was generated"}]
